@@ -183,7 +183,9 @@ def run(ctx, chk):
             pa.ret in (("op", "add", "i64", ("arg", 0), ("arg", 1)), ("op", "add", "i64", ("arg", 1), ("arg", 0)))
         chk.ob("C20.signalling", "_cbor_safe_signaling_add path %d: sum returned only after _cbor_safe_to_add" % k, ok,
                "%s:%d" % (sa.file, sa.line), fn=sa.name, key="ssa:%d" % k)
-    nss = len(list(ss.calls("_cbor_safe_signaling_add")))
+    nss = len(list(ss.calls("_cbor_safe_signaling_add"))) + sum(len(list(prog.funcs[h_].calls("_cbor_safe_signaling_add")))
+                                                                for h_ in eff.transitive_callees(ss.name)
+                                                                if h_ in prog.funcs and prog.funcs[h_].internal and h_ != "_cbor_safe_signaling_add")
     chk.floor("C20.signalling", "signalling adds in cbor_serialized_size", nss, 4)
 
     # ---- allocation sizes
